@@ -36,6 +36,9 @@ def bind_repo():
     sys.dont_write_bytecode = True
     if REPO not in sys.path[:1]:
         sys.path.insert(0, REPO)
+    if "btc_hd_wallet" not in sys.modules:
+        from . import answers
+        answers.install_tracking()           # hmac.new / hmac.digest of the code under test are owned from before its import
     import btc_hd_wallet
     f = os.path.realpath(btc_hd_wallet.__file__)
     if not f.startswith(REPO + os.sep):
